@@ -1,6 +1,7 @@
 (* AesProofs.v -- lemmas about the FIPS-197 model (models/Aes.v): validation against the
    FIPS-197 appendix vectors, and InvCipher inverts Cipher for every key and block. *)
-From Got Require Import Base Aes.
+From Got Require Import Base Aes AesSpec.
+Require Import NArith Nnat.
 Local Open Scope N_scope.
 
 (* ---- FIPS-197 test vectors *)
@@ -38,3 +39,267 @@ Proof. vm_compute. split; reflexivity. Qed.
 Example aes_fips_a3 : last (aes_key_schedule [0x60; 0x3d; 0xeb; 0x10; 0x15; 0xca; 0x71; 0xbe; 0x2b; 0x73; 0xae; 0xf0; 0x85; 0x7d; 0x77; 0x81; 0x1f; 0x35; 0x2c; 0x07; 0x3b; 0x61; 0x08; 0xd7; 0x2d; 0x98; 0x10; 0xa3; 0x09; 0x14; 0xdf; 0xf4]) [] = [0xfe; 0x48; 0x90; 0xd1; 0xe6; 0x18; 0x8d; 0x0b; 0x04; 0x6d; 0xf3; 0x44; 0x70; 0x6c; 0x63; 0x1e]
   /\ length (aes_key_schedule [0x60; 0x3d; 0xeb; 0x10; 0x15; 0xca; 0x71; 0xbe; 0x2b; 0x73; 0xae; 0xf0; 0x85; 0x7d; 0x77; 0x81; 0x1f; 0x35; 0x2c; 0x07; 0x3b; 0x61; 0x08; 0xd7; 0x2d; 0x98; 0x10; 0xa3; 0x09; 0x14; 0xdf; 0xf4]) = 15%nat.
 Proof. vm_compute. split; reflexivity. Qed.
+
+(* ---- finite sweeps over bytes, lifted to all bytes *)
+Definition aes_all_bytes : list N := map N.of_nat (seq 0 256).
+
+Lemma aes_all_bytes_in x : x < 256 -> In x aes_all_bytes.
+Proof.
+  intros H. unfold aes_all_bytes. rewrite <- (N2Nat.id x). apply in_map. apply in_seq. lia.
+Qed.
+
+Lemma aes_byte_forall (P : N -> bool) :
+  forallb P aes_all_bytes = true -> forall x, x < 256 -> P x = true.
+Proof. intros H x Hx. rewrite forallb_forall in H. apply H, aes_all_bytes_in, Hx. Qed.
+
+Lemma aes_byte_forall2 (P : N -> N -> bool) :
+  forallb (fun x => forallb (P x) aes_all_bytes) aes_all_bytes = true ->
+  forall x y, x < 256 -> y < 256 -> P x y = true.
+Proof.
+  intros H x y Hx Hy. rewrite forallb_forall in H.
+  specialize (H x (aes_all_bytes_in x Hx)). exact (aes_byte_forall _ H y Hy).
+Qed.
+
+Lemma aes_lxor_byte x y : x < 256 -> y < 256 -> N.lxor x y < 256.
+Proof.
+  intros Hx Hy. apply N.ltb_lt.
+  apply (aes_byte_forall2 (fun a b => N.lxor a b <? 256)); [vm_compute; reflexivity | exact Hx | exact Hy].
+Qed.
+
+Lemma aes_lxor_cancel x y : N.lxor (N.lxor x y) y = x.
+Proof. rewrite N.lxor_assoc, N.lxor_nilpotent, N.lxor_0_r. reflexivity. Qed.
+
+(* ---- list helpers *)
+Lemma aes_firstn_app_exact {A} (a b : list A) n : length a = n -> firstn n (a ++ b) = a.
+Proof. intros <-. induction a as [|x a IH]; simpl; [destruct b; reflexivity | rewrite IH; reflexivity]. Qed.
+
+Lemma aes_skipn_app_exact {A} (a b : list A) n : length a = n -> skipn n (a ++ b) = b.
+Proof. intros <-. induction a as [|x a IH]; simpl; [reflexivity | exact IH]. Qed.
+
+Lemma aes_bytes_app a b : aess_bytes (a ++ b) <-> aess_bytes a /\ aess_bytes b.
+Proof. unfold aess_bytes. apply Forall_app. Qed.
+
+Lemma aes_bytes_firstn n l : aess_bytes l -> aess_bytes (firstn n l).
+Proof. intros H. rewrite <- (firstn_skipn n l) in H. apply aes_bytes_app in H. tauto. Qed.
+
+Lemma aes_bytes_skipn n l : aess_bytes l -> aess_bytes (skipn n l).
+Proof. intros H. rewrite <- (firstn_skipn n l) in H. apply aes_bytes_app in H. tauto. Qed.
+
+(* ---- xor of byte strings *)
+Lemma aes_xor_bytes_length a b : length (aes_xor_bytes a b) = Nat.min (length a) (length b).
+Proof.
+  revert b. induction a as [|x a IH]; intros [|y b]; simpl; try reflexivity.
+  rewrite IH. reflexivity.
+Qed.
+
+Lemma aes_xor_bytes_bytes a b : aess_bytes a -> aess_bytes b -> aess_bytes (aes_xor_bytes a b).
+Proof.
+  unfold aess_bytes. intros Ha. revert b. induction Ha as [|x a Hx Ha IH]; intros b Hb; simpl.
+  - constructor.
+  - destruct Hb as [|y b Hy Hb]; constructor.
+    + apply aes_lxor_byte; assumption.
+    + apply IH; assumption.
+Qed.
+
+Lemma aes_xor_bytes_cancel a b :
+  (length a <= length b)%nat -> aes_xor_bytes (aes_xor_bytes a b) b = a.
+Proof.
+  revert b. induction a as [|x a IH]; intros [|y b] H; simpl in *; try reflexivity; try lia.
+  rewrite aes_lxor_cancel, IH by lia. reflexivity.
+Qed.
+
+Lemma aes_xor_block a b : aess_block a -> aess_block b -> aess_block (aes_xor_bytes a b).
+Proof.
+  intros [La Ba] [Lb Bb]. split.
+  - rewrite aes_xor_bytes_length, La, Lb. reflexivity.
+  - apply aes_xor_bytes_bytes; assumption.
+Qed.
+
+(* =====================================================================================
+   InvCipher inverts Cipher (FIPS-197 5.3), for every block and every key of 16/24/32 bytes
+   ===================================================================================== *)
+Require Import Btauto.
+
+(* ---- bytes: S-box *)
+Lemma aes_isub_sub x : x < 256 -> aes_isub (aes_sub x) = x.
+Proof.
+  intros Hx. apply N.eqb_eq.
+  apply (aes_byte_forall (fun x => aes_isub (aes_sub x) =? x)); [vm_compute; reflexivity | exact Hx].
+Qed.
+
+Lemma aes_sub_byte x : x < 256 -> aes_sub x < 256.
+Proof.
+  intros Hx. apply N.ltb_lt.
+  apply (aes_byte_forall (fun x => aes_sub x <? 256)); [vm_compute; reflexivity | exact Hx].
+Qed.
+
+Lemma aes_isub_byte x : x < 256 -> aes_isub x < 256.
+Proof.
+  intros Hx. apply N.ltb_lt.
+  apply (aes_byte_forall (fun x => aes_isub x <? 256)); [vm_compute; reflexivity | exact Hx].
+Qed.
+
+Lemma aes_xtime_byte x : x < 256 -> aes_xtime x < 256.
+Proof.
+  intros Hx. apply N.ltb_lt.
+  apply (aes_byte_forall (fun x => aes_xtime x <? 256)); [vm_compute; reflexivity | exact Hx].
+Qed.
+
+(* ---- bytes: GF(2^8) multiplication by the MixColumns constants *)
+Lemma aes_gmul_byte k x : k < 256 -> x < 256 -> aes_gmul k x < 256.
+Proof.
+  intros Hk Hx. apply N.ltb_lt.
+  apply (aes_byte_forall2 (fun a b => aes_gmul a b <? 256)); [vm_compute; reflexivity | exact Hk | exact Hx].
+Qed.
+
+Lemma aes_gmul9_lin x y :
+  x < 256 -> y < 256 -> aes_gmul 9 (N.lxor x y) = N.lxor (aes_gmul 9 x) (aes_gmul 9 y).
+Proof.
+  intros Hx Hy. apply N.eqb_eq.
+  apply (aes_byte_forall2 (fun a b => aes_gmul 9 (N.lxor a b) =? N.lxor (aes_gmul 9 a) (aes_gmul 9 b)));
+    [vm_compute; reflexivity | exact Hx | exact Hy].
+Qed.
+Lemma aes_gmul11_lin x y :
+  x < 256 -> y < 256 -> aes_gmul 11 (N.lxor x y) = N.lxor (aes_gmul 11 x) (aes_gmul 11 y).
+Proof.
+  intros Hx Hy. apply N.eqb_eq.
+  apply (aes_byte_forall2 (fun a b => aes_gmul 11 (N.lxor a b) =? N.lxor (aes_gmul 11 a) (aes_gmul 11 b)));
+    [vm_compute; reflexivity | exact Hx | exact Hy].
+Qed.
+Lemma aes_gmul13_lin x y :
+  x < 256 -> y < 256 -> aes_gmul 13 (N.lxor x y) = N.lxor (aes_gmul 13 x) (aes_gmul 13 y).
+Proof.
+  intros Hx Hy. apply N.eqb_eq.
+  apply (aes_byte_forall2 (fun a b => aes_gmul 13 (N.lxor a b) =? N.lxor (aes_gmul 13 a) (aes_gmul 13 b)));
+    [vm_compute; reflexivity | exact Hx | exact Hy].
+Qed.
+Lemma aes_gmul14_lin x y :
+  x < 256 -> y < 256 -> aes_gmul 14 (N.lxor x y) = N.lxor (aes_gmul 14 x) (aes_gmul 14 y).
+Proof.
+  intros Hx Hy. apply N.eqb_eq.
+  apply (aes_byte_forall2 (fun a b => aes_gmul 14 (N.lxor a b) =? N.lxor (aes_gmul 14 a) (aes_gmul 14 b)));
+    [vm_compute; reflexivity | exact Hx | exact Hy].
+Qed.
+
+Ltac aes_byte_tac :=
+  repeat match goal with
+         | |- _ => assumption
+         | |- aes_gmul _ _ < 256 => apply aes_gmul_byte; [reflexivity|]
+         | |- N.lxor _ _ < 256 => apply aes_lxor_byte
+         end.
+
+(* the 16 entries of InvMixColumns-matrix * MixColumns-matrix over GF(2^8): the identity *)
+Lemma aes_mc_id_00 x : x < 256 -> N.lxor (N.lxor (aes_gmul 14 (aes_gmul 2 x)) (aes_gmul 11 x)) (N.lxor (aes_gmul 13 x) (aes_gmul 9 (aes_gmul 3 x))) = x.
+Proof.
+  intros Hx. apply N.eqb_eq.
+  apply (aes_byte_forall (fun x => N.lxor (N.lxor (aes_gmul 14 (aes_gmul 2 x)) (aes_gmul 11 x)) (N.lxor (aes_gmul 13 x) (aes_gmul 9 (aes_gmul 3 x))) =? x)); [vm_compute; reflexivity | exact Hx].
+Qed.
+Lemma aes_mc_id_01 x : x < 256 -> N.lxor (N.lxor (aes_gmul 14 (aes_gmul 3 x)) (aes_gmul 11 (aes_gmul 2 x))) (N.lxor (aes_gmul 13 x) (aes_gmul 9 x)) = 0.
+Proof.
+  intros Hx. apply N.eqb_eq.
+  apply (aes_byte_forall (fun x => N.lxor (N.lxor (aes_gmul 14 (aes_gmul 3 x)) (aes_gmul 11 (aes_gmul 2 x))) (N.lxor (aes_gmul 13 x) (aes_gmul 9 x)) =? 0)); [vm_compute; reflexivity | exact Hx].
+Qed.
+Lemma aes_mc_id_02 x : x < 256 -> N.lxor (N.lxor (aes_gmul 14 x) (aes_gmul 11 (aes_gmul 3 x))) (N.lxor (aes_gmul 13 (aes_gmul 2 x)) (aes_gmul 9 x)) = 0.
+Proof.
+  intros Hx. apply N.eqb_eq.
+  apply (aes_byte_forall (fun x => N.lxor (N.lxor (aes_gmul 14 x) (aes_gmul 11 (aes_gmul 3 x))) (N.lxor (aes_gmul 13 (aes_gmul 2 x)) (aes_gmul 9 x)) =? 0)); [vm_compute; reflexivity | exact Hx].
+Qed.
+Lemma aes_mc_id_03 x : x < 256 -> N.lxor (N.lxor (aes_gmul 14 x) (aes_gmul 11 x)) (N.lxor (aes_gmul 13 (aes_gmul 3 x)) (aes_gmul 9 (aes_gmul 2 x))) = 0.
+Proof.
+  intros Hx. apply N.eqb_eq.
+  apply (aes_byte_forall (fun x => N.lxor (N.lxor (aes_gmul 14 x) (aes_gmul 11 x)) (N.lxor (aes_gmul 13 (aes_gmul 3 x)) (aes_gmul 9 (aes_gmul 2 x))) =? 0)); [vm_compute; reflexivity | exact Hx].
+Qed.
+Lemma aes_mc_id_10 x : x < 256 -> N.lxor (N.lxor (aes_gmul 9 (aes_gmul 2 x)) (aes_gmul 14 x)) (N.lxor (aes_gmul 11 x) (aes_gmul 13 (aes_gmul 3 x))) = 0.
+Proof.
+  intros Hx. apply N.eqb_eq.
+  apply (aes_byte_forall (fun x => N.lxor (N.lxor (aes_gmul 9 (aes_gmul 2 x)) (aes_gmul 14 x)) (N.lxor (aes_gmul 11 x) (aes_gmul 13 (aes_gmul 3 x))) =? 0)); [vm_compute; reflexivity | exact Hx].
+Qed.
+Lemma aes_mc_id_11 x : x < 256 -> N.lxor (N.lxor (aes_gmul 9 (aes_gmul 3 x)) (aes_gmul 14 (aes_gmul 2 x))) (N.lxor (aes_gmul 11 x) (aes_gmul 13 x)) = x.
+Proof.
+  intros Hx. apply N.eqb_eq.
+  apply (aes_byte_forall (fun x => N.lxor (N.lxor (aes_gmul 9 (aes_gmul 3 x)) (aes_gmul 14 (aes_gmul 2 x))) (N.lxor (aes_gmul 11 x) (aes_gmul 13 x)) =? x)); [vm_compute; reflexivity | exact Hx].
+Qed.
+Lemma aes_mc_id_12 x : x < 256 -> N.lxor (N.lxor (aes_gmul 9 x) (aes_gmul 14 (aes_gmul 3 x))) (N.lxor (aes_gmul 11 (aes_gmul 2 x)) (aes_gmul 13 x)) = 0.
+Proof.
+  intros Hx. apply N.eqb_eq.
+  apply (aes_byte_forall (fun x => N.lxor (N.lxor (aes_gmul 9 x) (aes_gmul 14 (aes_gmul 3 x))) (N.lxor (aes_gmul 11 (aes_gmul 2 x)) (aes_gmul 13 x)) =? 0)); [vm_compute; reflexivity | exact Hx].
+Qed.
+Lemma aes_mc_id_13 x : x < 256 -> N.lxor (N.lxor (aes_gmul 9 x) (aes_gmul 14 x)) (N.lxor (aes_gmul 11 (aes_gmul 3 x)) (aes_gmul 13 (aes_gmul 2 x))) = 0.
+Proof.
+  intros Hx. apply N.eqb_eq.
+  apply (aes_byte_forall (fun x => N.lxor (N.lxor (aes_gmul 9 x) (aes_gmul 14 x)) (N.lxor (aes_gmul 11 (aes_gmul 3 x)) (aes_gmul 13 (aes_gmul 2 x))) =? 0)); [vm_compute; reflexivity | exact Hx].
+Qed.
+Lemma aes_mc_id_20 x : x < 256 -> N.lxor (N.lxor (aes_gmul 13 (aes_gmul 2 x)) (aes_gmul 9 x)) (N.lxor (aes_gmul 14 x) (aes_gmul 11 (aes_gmul 3 x))) = 0.
+Proof.
+  intros Hx. apply N.eqb_eq.
+  apply (aes_byte_forall (fun x => N.lxor (N.lxor (aes_gmul 13 (aes_gmul 2 x)) (aes_gmul 9 x)) (N.lxor (aes_gmul 14 x) (aes_gmul 11 (aes_gmul 3 x))) =? 0)); [vm_compute; reflexivity | exact Hx].
+Qed.
+Lemma aes_mc_id_21 x : x < 256 -> N.lxor (N.lxor (aes_gmul 13 (aes_gmul 3 x)) (aes_gmul 9 (aes_gmul 2 x))) (N.lxor (aes_gmul 14 x) (aes_gmul 11 x)) = 0.
+Proof.
+  intros Hx. apply N.eqb_eq.
+  apply (aes_byte_forall (fun x => N.lxor (N.lxor (aes_gmul 13 (aes_gmul 3 x)) (aes_gmul 9 (aes_gmul 2 x))) (N.lxor (aes_gmul 14 x) (aes_gmul 11 x)) =? 0)); [vm_compute; reflexivity | exact Hx].
+Qed.
+Lemma aes_mc_id_22 x : x < 256 -> N.lxor (N.lxor (aes_gmul 13 x) (aes_gmul 9 (aes_gmul 3 x))) (N.lxor (aes_gmul 14 (aes_gmul 2 x)) (aes_gmul 11 x)) = x.
+Proof.
+  intros Hx. apply N.eqb_eq.
+  apply (aes_byte_forall (fun x => N.lxor (N.lxor (aes_gmul 13 x) (aes_gmul 9 (aes_gmul 3 x))) (N.lxor (aes_gmul 14 (aes_gmul 2 x)) (aes_gmul 11 x)) =? x)); [vm_compute; reflexivity | exact Hx].
+Qed.
+Lemma aes_mc_id_23 x : x < 256 -> N.lxor (N.lxor (aes_gmul 13 x) (aes_gmul 9 x)) (N.lxor (aes_gmul 14 (aes_gmul 3 x)) (aes_gmul 11 (aes_gmul 2 x))) = 0.
+Proof.
+  intros Hx. apply N.eqb_eq.
+  apply (aes_byte_forall (fun x => N.lxor (N.lxor (aes_gmul 13 x) (aes_gmul 9 x)) (N.lxor (aes_gmul 14 (aes_gmul 3 x)) (aes_gmul 11 (aes_gmul 2 x))) =? 0)); [vm_compute; reflexivity | exact Hx].
+Qed.
+Lemma aes_mc_id_30 x : x < 256 -> N.lxor (N.lxor (aes_gmul 11 (aes_gmul 2 x)) (aes_gmul 13 x)) (N.lxor (aes_gmul 9 x) (aes_gmul 14 (aes_gmul 3 x))) = 0.
+Proof.
+  intros Hx. apply N.eqb_eq.
+  apply (aes_byte_forall (fun x => N.lxor (N.lxor (aes_gmul 11 (aes_gmul 2 x)) (aes_gmul 13 x)) (N.lxor (aes_gmul 9 x) (aes_gmul 14 (aes_gmul 3 x))) =? 0)); [vm_compute; reflexivity | exact Hx].
+Qed.
+Lemma aes_mc_id_31 x : x < 256 -> N.lxor (N.lxor (aes_gmul 11 (aes_gmul 3 x)) (aes_gmul 13 (aes_gmul 2 x))) (N.lxor (aes_gmul 9 x) (aes_gmul 14 x)) = 0.
+Proof.
+  intros Hx. apply N.eqb_eq.
+  apply (aes_byte_forall (fun x => N.lxor (N.lxor (aes_gmul 11 (aes_gmul 3 x)) (aes_gmul 13 (aes_gmul 2 x))) (N.lxor (aes_gmul 9 x) (aes_gmul 14 x)) =? 0)); [vm_compute; reflexivity | exact Hx].
+Qed.
+Lemma aes_mc_id_32 x : x < 256 -> N.lxor (N.lxor (aes_gmul 11 x) (aes_gmul 13 (aes_gmul 3 x))) (N.lxor (aes_gmul 9 (aes_gmul 2 x)) (aes_gmul 14 x)) = 0.
+Proof.
+  intros Hx. apply N.eqb_eq.
+  apply (aes_byte_forall (fun x => N.lxor (N.lxor (aes_gmul 11 x) (aes_gmul 13 (aes_gmul 3 x))) (N.lxor (aes_gmul 9 (aes_gmul 2 x)) (aes_gmul 14 x)) =? 0)); [vm_compute; reflexivity | exact Hx].
+Qed.
+Lemma aes_mc_id_33 x : x < 256 -> N.lxor (N.lxor (aes_gmul 11 x) (aes_gmul 13 x)) (N.lxor (aes_gmul 9 (aes_gmul 3 x)) (aes_gmul 14 (aes_gmul 2 x))) = x.
+Proof.
+  intros Hx. apply N.eqb_eq.
+  apply (aes_byte_forall (fun x => N.lxor (N.lxor (aes_gmul 11 x) (aes_gmul 13 x)) (N.lxor (aes_gmul 9 (aes_gmul 3 x)) (aes_gmul 14 (aes_gmul 2 x))) =? x)); [vm_compute; reflexivity | exact Hx].
+Qed.
+
+Lemma aes_xor_transpose (t00 t01 t02 t03 t10 t11 t12 t13 t20 t21 t22 t23 t30 t31 t32 t33 : N) :
+  N.lxor (N.lxor (N.lxor (N.lxor t00 t01) (N.lxor t02 t03)) (N.lxor (N.lxor t10 t11) (N.lxor t12 t13)))
+         (N.lxor (N.lxor (N.lxor t20 t21) (N.lxor t22 t23)) (N.lxor (N.lxor t30 t31) (N.lxor t32 t33)))
+  = N.lxor (N.lxor (N.lxor (N.lxor t00 t10) (N.lxor t20 t30)) (N.lxor (N.lxor t01 t11) (N.lxor t21 t31)))
+         (N.lxor (N.lxor (N.lxor t02 t12) (N.lxor t22 t32)) (N.lxor (N.lxor t03 t13) (N.lxor t23 t33))).
+Proof. apply N.bits_inj. intros n. rewrite !N.lxor_spec. btauto. Qed.
+
+Lemma aes_list4_eq {A} (r0 r1 r2 r3 a b c d : A) :
+  r0 = a -> r1 = b -> r2 = c -> r3 = d -> [r0; r1; r2; r3] = [a; b; c; d].
+Proof. intros -> -> -> ->. reflexivity. Qed.
+
+(* one column: InvMixColumns (MixColumns col) = col *)
+Lemma aes_mix_column_inv a b c d :
+  a < 256 -> b < 256 -> c < 256 -> d < 256 ->
+  aes_inv_mix_column
+    (N.lxor (N.lxor (aes_gmul 2 a) (aes_gmul 3 b)) (N.lxor c d))
+    (N.lxor (N.lxor a (aes_gmul 2 b)) (N.lxor (aes_gmul 3 c) d))
+    (N.lxor (N.lxor a b) (N.lxor (aes_gmul 2 c) (aes_gmul 3 d)))
+    (N.lxor (N.lxor (aes_gmul 3 a) b) (N.lxor c (aes_gmul 2 d)))
+  = [a; b; c; d].
+Proof.
+  intros Ha Hb Hc Hd. unfold aes_inv_mix_column.
+  rewrite !aes_gmul14_lin, !aes_gmul11_lin, !aes_gmul13_lin, !aes_gmul9_lin by aes_byte_tac.
+  apply aes_list4_eq; rewrite aes_xor_transpose.
+  - rewrite aes_mc_id_00, aes_mc_id_01, aes_mc_id_02, aes_mc_id_03 by assumption.
+    rewrite !N.lxor_0_r. reflexivity.
+  - rewrite aes_mc_id_10, aes_mc_id_11, aes_mc_id_12, aes_mc_id_13 by assumption.
+    rewrite !N.lxor_0_r, N.lxor_0_l. reflexivity.
+  - rewrite aes_mc_id_20, aes_mc_id_21, aes_mc_id_22, aes_mc_id_23 by assumption.
+    rewrite !N.lxor_0_r, !N.lxor_0_l. reflexivity.
+  - rewrite aes_mc_id_30, aes_mc_id_31, aes_mc_id_32, aes_mc_id_33 by assumption.
+    rewrite !N.lxor_0_l. reflexivity.
+Qed.
